@@ -9,7 +9,9 @@ store that returns what was written; ids are the integers the format stores).  `
 ordered by element id with the row order inside every element kept; `roundtrip_mesh` proves exactly that
 characterisation, so the later theorems can state "the frame read back is `byElement` of the exported frame".
 A *valid mesh frame* has pairwise distinct (element_id, node_id) pairs (`(rows.map Row.key).Nodup`); the
-hypothesis is stated where it is used.
+hypothesis is stated where it is used.  Meshes with a collapsed element (a node repeated in one element's connectivity) have
+non-distinct keys: they are NOT covered by the element nodal theorems (nor by pyLife's own importer, whose joins multiply such
+rows); what the exporter writes for them is checked on the file by the harness only.
 
 What the proofs add and what they do not.  Proof content: the stable-sort characterisation of the read-back order
 (`byElement_sorted/_filter/_perm`), the importer's mesh index = the exported connectivity (`meshIndex_connectivity`),
